@@ -436,3 +436,6 @@ CLAIMS["C20"]["text"] += (" The counter's reported State() is compared with the 
 CLAIMS["C05"]["text"] += (" Two cases in seven run a swarm that lacks the TCP or the QUIC transport: addresses of the missing transport cannot be dialled (never handed to a transport), and a ws / webtransport address on the ip:port of such an address is then not shadowed and must be attempted.")
 
 CLAIMS["C03"]["text"] += (" A third of the sequential histories give the manager the library's own fixed limiter (NewFixedLimiter over a limit configuration built from the drawn table, with explicit per-protocol and per-service per-peer overrides) instead of the harness' table-driven Limiter, so the stock limit lookup is part of what is checked.")
+
+CLAIMS["C04"]["text"] += (" The host layer also opens bare swarm streams that the opener ends (half-close then close, or close at once) before sending a single byte of protocol negotiation while the connection stays up: the accepting host must dispose of the inbound stream, which must be gone from the connection and from every scope at the mid-life and final audits.")
+CLAIMS["C04"]["note"] += (" The QUIC transport's own listener (gating after the QUIC handshake, seeded change C04-N) and its hole-punch dial path (C04-K) are not driven by any C04 layer.")
